@@ -11,7 +11,9 @@ def seeds_table():
         own = m['property']
         caught = '; '.join(sorted({x.split(' ')[0] + ' `' + x.split(' ', 1)[1][:60] + '`' for p in det for x in det[p]}))[:260]
         ch = m.get('confirmed_head')
-        status = 'confirmed on HEAD' if ch is True else ('neutralised by a later fix (demo passes with the change on HEAD): kept for its base ' + m.get('confirmed_by_me', {}).get('base', '') if ch is False else 'confirmed on base ' + m.get('confirmed_by_me', {}).get('base', ''))
+        if m.get('neutralised_by'):
+            ch = None
+        status = ('neutralised by fix ' + m['neutralised_by'] + ': silent on HEAD (correctly), reported on the tree without that fix: ' + '; '.join(x.split(' (')[0] for x in m.get('detected_without_fix', []))[:160]) if m.get('neutralised_by') else 'confirmed on HEAD' if ch is True else ('neutralised by a later fix (demo passes with the change on HEAD): kept for its base ' + m.get('confirmed_by_me', {}).get('base', '') if ch is False else 'confirmed on base ' + m.get('confirmed_by_me', {}).get('base', ''))
         if os.path.exists(d + '/patch.orig.diff'):
             status += '; patch rebased onto HEAD'
         rows.append('| %s | %s | %s | %s | %s | %s |' % (os.path.basename(d), own, m.get('summary', '').replace('|', '/')[:170], m.get('needs_to_manifest', '').replace('|', '/')[:150], caught or m.get('detection', ''), status))
@@ -27,10 +29,10 @@ def equiv_table():
     for f in sorted(glob.glob(V + '/corpus/equiv/*.diff')):
         j = f[:-5] + '.json'
         m = json.load(open(j)) if os.path.exists(j) else {}
-        rows.append('| %s | %s | %s | %s |' % (os.path.basename(f)[:-5], m.get('kind', 'hand-made'), m.get('summary', '').replace('|', '/')[:160], m.get('result', 'silent')))
+        rows.append('| %s | %s | %s | %s |' % (os.path.basename(f)[:-5], (m.get('kind') or 'hand-made'), m.get('summary', '').replace('|', '/')[:160], m.get('result', 'silent')))
     return '\n'.join(rows)
 s = open(V + '/DESIGN.md').read()
 for name, fn in (('SEEDS', seeds_table), ('FINDINGS', findings_table), ('EQUIV', equiv_table)):
-    s = re.sub(r'(<!-- AUTOGEN:%s -->\n).*?(\n<!-- /AUTOGEN:%s -->)' % (name, name), lambda m: m.group(1) + fn() + m.group(2), s, flags=re.S)
+    s = re.sub(r'(<!-- AUTOGEN:%s -->\n).*?(<!-- /AUTOGEN:%s -->)' % (name, name), lambda m: m.group(1) + fn() + '\n' + m.group(2), s, flags=re.S)
 open(V + '/DESIGN.md', 'w').write(s)
 print('tables regenerated')
